@@ -182,3 +182,78 @@ def s08_monotone_counters(ctx, only_types=None, rule_id='S08'):
     r.floor('integer state fields examined', 15, nfields if not only_types else 15)
     r.info['integer_fields'] = nfields
     return r
+
+
+# ---------------------------------------------------------------------------------------
+# S08b: panicking increments of narrow state counters must be bounded by a comparison-guarded reset
+
+S08B_EXCEPTIONS = {
+    'ExampleInstance.last_signal_position': 'incremented only while last_signal != None, and `position > cfg.period` clears last_signal: bounded by '
+                                            'cfg.period + 1; cfg.period is a private field without a set() arm (default 3)',
+}
+
+
+def _panicking_increment(tree, name):
+    t = tree
+    while t[0] in ('ref', 'deref'):
+        t = t[1]
+    if t[0] == 'field' and t[2] == '0' and t[1][0] == 'bin' and t[1][1] == 'AddWithOverflow':
+        t = t[1]
+        a, b = t[2], t[3]
+        return (_is_self_field(a, name) and not _mentions_self_field(b, name)) or (_is_self_field(b, name) and not _mentions_self_field(a, name))
+    return False
+
+
+def s08b_bounded_panicking_counters(ctx):
+    f = ctx.facts('default')
+    m = Model(f)
+    r = RuleResult('S08b', 'a narrow (<= 16 bit) integer state field incremented with overflow-checked (panicking) arithmetic in a step function '
+                           'is clamped: some comparison of that field guards a reset of it; otherwise a long enough stream panics')
+    n = 0
+    used = set()
+    for short, p, body, tr in step_functions(m):
+        adt = f.adts[p]
+        ints = [(fl['name'], fl['tyj']['n']) for v in adt['variants'] for fl in v['fields'] if fl['tyj']['t'] == 'int' and INT_BITS.get(fl['tyj']['n'], 64) <= 16]
+        for fname, ity in ints:
+            bodies = [body] + _local_mut_self_callees(m, body)
+            incs = []
+            for b in bodies:
+                for bi, si, s in b.stmts():
+                    if s['s'] == 'assign' and self_field_of_place(s['pl']) == [fname]:
+                        tree = b.tree_of_rvalue(s['rv'])
+                        if _panicking_increment(tree, fname):
+                            incs.append((b, bi, s['sp']['l'], tree))
+            if not incs:
+                continue
+            n += 1
+            key = '%s.%s' % (short, fname)
+            r.inst(key)
+            bounded = False
+            for b in bodies:
+                for d in range(b.n):
+                    t = b.blocks[d]['term']
+                    if t['t'] != 'switch':
+                        continue
+                    dt = b.tree_of_operand(t['discr'])
+                    if not (dt[0] == 'bin' and dt[1] in ('Eq', 'Ne', 'Ge', 'Gt', 'Le', 'Lt') and _mentions_self_field(dt, fname)):
+                        continue
+                    for succ in b.succ(d):
+                        region = b.dominated_by_edge(d, succ) | ({succ} if len(b.pred(succ)) == 1 else set())
+                        for bi in region:
+                            for s in b.blocks[bi]['stmts']:
+                                if s['s'] == 'assign' and self_field_of_place(s['pl']) == [fname]:
+                                    if classify_write(b.tree_of_rvalue(s['rv']), fname) == 'reset':
+                                        bounded = True
+            if bounded:
+                r.sample({'field': key, 'type': ity, 'increment': tree_str(incs[0][3])[:60], 'bounded_by': 'comparison-guarded reset'})
+                continue
+            if key in S08B_EXCEPTIONS:
+                used.add(key)
+                r.sample({'field': key, 'type': ity, 'exception': S08B_EXCEPTIONS[key]})
+                continue
+            b, bi, line, tree = incs[0]
+            r.violate(key + '|unbounded-panicking-increment', 'field %s: %s is incremented with overflow-checked arithmetic (%s) and no comparison of it guards a '
+                      'reset: a stream that keeps incrementing it 2^%d times makes next() panic' % (key, ity, tree_str(tree)[:60], INT_BITS.get(ity, 64)), b.file, line)
+    r.info['stale_exceptions'] = sorted(set(S08B_EXCEPTIONS) - used)
+    r.floor('narrow counters with checked increments', 2, n)
+    return r
